@@ -145,6 +145,7 @@ type Config struct {
 	RandMenu func(n int64) []int64
 	RandLog  *[]int64 // every drawn value is appended here
 	NoTick   bool     // the clock does not advance on reads (sequential harnesses that merge states)
+	Strict   bool     // every departure from the default scheduling decision costs 1 (also when the running thread blocked)
 	Sites    bool
 }
 
@@ -504,7 +505,7 @@ func (r *run) loop() {
 		anyCost := false
 		for i := 0; i < len(en); i++ {
 			c := int8(0)
-			if curEn != nil && i != 0 {
+			if (curEn != nil || r.cfg.Strict) && i != 0 {
 				c = 1
 			}
 			costs = append(costs, c)
